@@ -37,10 +37,14 @@ def behaviours(chk, binary=None):
         s.job("C23 cr: voting, checkpoint between blocks", "voting", G.CR_KINDS + ["Checkpoint"], 4, emit="all", limit=1500, rolls=1)
         s.job("C23 cr: simulation election, 30 steps", "election", allk, 30, emit="last", simulate="num=150", rolls=2, timeout=1700)
         s.job("C23 cr: simulation duty, 30 steps", "duty", allk, 30, emit="last", simulate="num=150", rolls=2, timeout=1700)
+        s.job("C23 cr: simulation handover, 16 steps", "handover", allk, 16, emit="last", simulate="num=150", rolls=2, timeout=1700)
     else:
         s.job("C23 cr: agreed, checkpoint between blocks", "agreed", ["Tracking", "Withdraw", "RealWithdraw", "Checkpoint"], 3,
               emit="all", limit=150, rolls=0)
         s.job("C23 cr: simulation election, 12 steps", "election", allk, 12, emit="last", simulate="num=25", rolls=1)
+        # across a committee change that succeeds: next members with claimed nodes, members of a second term, candidates
+        # canceled when the voting period ends, reject votes, proposal results, the used amount at the start of a term
+        s.job("C23 cr: simulation handover, 10 steps", "handover", allk, 10, emit="last", simulate="num=25", rolls=1)
     s.run_jobs(parallel=4)
     _session = s
     out = []
@@ -56,7 +60,7 @@ def run_part(chk, binary=None, behs=None, shards=8):
         behs = behaviours(chk, binary)
     s = _session
     binary = binary or s.binary
-    cfgp = G.driver_cfg(s.preambles)
+    cfgp = G.driver_cfg(s.preambles[""])     # (all jobs of this part use the default constant set)
     path = os.path.join(vf.scratch(), "crstate-c23-behaviours.jsonl")
     vf.write_json_lines(path, behs)
     import concurrent.futures
